@@ -126,7 +126,11 @@ func runCase(run *evid.Run, sp spec) (res result) {
 		}
 	}
 	b := &backend{fail: st.fail, err: e0}
-	ch, err := buildChain(b.funcs(), maxHops, sp.Loopback, (sp.Case/7)%2 == 1)
+	pageSize := 0
+	if strings.HasSuffix(st.fail, ".page2") {
+		pageSize = 2
+	}
+	ch, err := buildChain(b.funcs(), maxHops, sp.Loopback, (sp.Case/7)%2 == 1, pageSize)
 	if err != nil {
 		res.inconcl = true
 		return
